@@ -369,4 +369,70 @@ func TestVerifC10Fixed(t *testing.T) {
 	vlib.Fixed(t, "C10", []string{"F-C10-empty-view-refetch"}, c10FixedCase)
 }
 
+func c16FixedCase(name string) (string, any) {
+	switch name {
+	case "F-C16-detached-converter-runs-again":
+		// two captures: the second extends stream 0. A converter job is held before its body, the converter is
+		// detached, the job then converts anyway (its list was taken at its start); the later import must not
+		// make the detached converter run again.
+		s, err := vfStart([][2]string{{"aa", "bb"}, {"cc", ""}, {"", ""}}, []int{0, 3, 4}, []string{"cva"}, false)
+		if err != nil {
+			return "setup: " + err.Error(), nil
+		}
+		defer s.close()
+		s.tr.Packets[3] = vePacket{Flow: 0, Dir: 0, Off: s.tr.Packets[2].Off + time.Second, Payload: "more"}
+		s.tr.Flows = s.tr.Flows[:2]
+		logPath := filepath.Join(s.base, "conversions.log")
+		os.Setenv("VERIF_CONV_LOG", logPath)
+		logLen := func() int {
+			b, _ := os.ReadFile(logPath)
+			return strings.Count(string(b), "\n")
+		}
+		fail := func(f string, a ...any) (string, any) { return fmt.Sprintf(f, a...), s.hist }
+		steps := []func() error{
+			func() error { return s.importCapture(0) },
+			s.settle,
+			func() error {
+				return s.call("AddTag tag/a sport:80", func(m *Manager) error { return m.AddTag("tag/a", "#fff", "sport:80") })
+			},
+			s.settle,
+			func() error {
+				s.e.mu.Lock()
+				s.e.holdNext["convert"] = true
+				s.e.mu.Unlock()
+				return nil
+			},
+			func() error {
+				return s.call("attach cva to tag/a", func(m *Manager) error { return m.UpdateTag("tag/a", UpdateTagOperationSetConverter([]string{"cva"})) })
+			},
+			func() error {
+				return s.call("detach cva from tag/a", func(m *Manager) error { return m.UpdateTag("tag/a", UpdateTagOperationSetConverter([]string{})) })
+			},
+			s.settle,
+		}
+		for _, f := range steps {
+			if err := f(); err != nil {
+				return fail("%v", err)
+			}
+		}
+		before := logLen()
+		if err := s.importCapture(1); err != nil {
+			return fail("%v", err)
+		}
+		if err := s.settle(); err != nil {
+			return fail("%v", err)
+		}
+		if after := logLen(); after != before {
+			return fail("converter cva ran %d more times after it had been detached from every tag (import extending stream 0)", after-before)
+		}
+	default:
+		return "unknown fixed case", name
+	}
+	return "", nil
+}
+
+func TestVerifC16Fixed(t *testing.T) {
+	vlib.Fixed(t, "C16", []string{"F-C16-detached-converter-runs-again"}, c16FixedCase)
+}
+
 var _ = filepath.Join
